@@ -92,6 +92,10 @@ def items_of(case):
     for it in case.get("items", []):
         if it["k"] == "burst":
             out += [burst_msg(it.get("start", 0) + i) for i in range(it["n"])]
+        elif it["k"] == "bigmsg":
+            from .sse_h import big_text
+            out.append({"k": "msg", "m": {"jsonrpc": "2.0", "method": "notifications/message", "params": {"blob": big_text(it["n"], it.get("i", 0)), "i": it.get("i", 0)}},
+                        "typed": it.get("typed", True), "nospace": it.get("nospace", False), "crlf": it.get("crlf", False)})
         else:
             out.append(it)
     return out
@@ -203,7 +207,8 @@ def harness_case(case):
         "chunks": [[t, p.hex()] for t, p in plan], "close": close, "bounds": item_bounds(case),
         "reqs": reqs, "exit": case.get("exit", {"k": "normal", "at": 50}), "pause": case.get("pause", 0),
     }
-    for f in ("write_mode", "warm", "api", "params", "close_raises", "notif_post", "ctor_fails", "twin", "twin_offset", "debug_log", "close_exc"):
+    for f in ("write_mode", "warm", "api", "params", "close_raises", "notif_post", "ctor_fails", "twin", "twin_offset", "debug_log", "close_exc",
+              "stderr", "close_write_at", "close_read_at"):
         if f in case:
             out[f] = case[f]
     return out
@@ -237,6 +242,24 @@ def late_duplicate(r):
 def acks(r):
     """the POST completion only acknowledges the request (202, or a 200 whose body is not the answer)"""
     return r["mode"] in ("silence", "evack", "ackev") or (r["mode"] == "200" and r.get("body200", "rpc") in NON_ANSWER_200)
+
+
+def answered_by(r, T=None):
+    """where the server's single answer is, for the pure modes the property names: "body" (200 +
+    answer), "ev" (202 and the answer on the stream, before or after it), "post" (non-2xx whose
+    body is the JSON-RPC answer); None for the mixed cells and for "never" / failures"""
+    if r["mode"] in ("evack", "ackev"):
+        last = r["ed"] + len(r.get("cuts", [])) * r.get("gap", 0)
+        if T is not None and last >= r.get("d", 4) + T:
+            return None  # at or after the instant the 202 wait expires: not "in time"
+        return "ev"
+    if "ed" in r:
+        return None
+    if r["mode"] == "200" and r.get("body200", "rpc") == "rpc":
+        return "body"
+    if r["mode"] == "status" and r.get("body") == "rpc":
+        return "post"
+    return None
 
 
 def model_req(r):
@@ -638,6 +661,17 @@ def exit_cases(budget, rng):
     # no request at all
     for ek in EXIT_KINDS:
         out.append({"T": T, "items": [EP], "reqs": [], "exit": {"k": ek, "at": 9}})
+    # L. the application closes its own end of the write / read stream while a request is pending
+    k2 = 0
+    for ek in EXIT_KINDS:
+        for spec in ({"mode": "silence", "d": 2}, {"mode": "ackev", "d": 2, "ed": 12}, {"mode": "200", "d": 8}):
+            for which in ("close_write_at", "close_read_at"):
+                for at in (6, 9):
+                    k2 += 1
+                    if budget == "quick" and k2 % 2:
+                        continue
+                    out.append({"T": T, "tie": TIES[k2 % 3], "items": [EP, msg_notif(1), msg_srvreq(2)], "cuts": "items", "t0": 1, "gap": 8,
+                                "reqs": [mk_req(1, 5, spec), mk_req(2, 7, {"mode": "200", "d": 2})], which: at, "exit": exit_spec(ek, 30)})
     # the server has ended the event stream (half-close) / closing the stream fails
     for ek in EXIT_KINDS:
         for spec in ({"mode": "silence", "d": 2}, {"mode": "200", "d": 6}, {"mode": "exc", "d": 6}):
@@ -880,6 +914,8 @@ def features(case):
             f.add("msg:" + ("typed" if it.get("typed", True) else "data-only") + ("" if it.get("valid", True) else ":invalid"))
         elif it["k"] == "burst":
             f.add("burst:" + ("<100" if it["n"] < 100 else "=100" if it["n"] == 100 else ">100"))
+        elif it["k"] == "bigmsg":
+            f.add("bigmsg:%dK" % (it["n"] // 1000))
         else:
             f.add("raw:" + repr(it["text"][:24]))
     if case.get("close") is not None:
@@ -896,7 +932,9 @@ def features(case):
             f.add("id:" + ("int" if isinstance(i, int) else "str") + (":falsy" if not i else "") + (":digits" if isinstance(i, str) and i.lstrip("-").isdigit() else ""))
         if r.get("form"):
             f.add("form:" + r["form"])
-        if r.get("answer"):
+        if r.get("answer") and "big" in r["answer"]:
+            f.add("answer:big:%dK" % (r["answer"]["big"] // 1000))
+        elif r.get("answer"):
             f.add("answer:" + r["answer"]["kind"] + (":empty" if not (r["answer"].get("payload") or r["answer"].get("message")) else ""))
         if r.get("typed") is False:
             f.add("response-event:data-only")
@@ -905,7 +943,8 @@ def features(case):
     ids = [r.get("id") for r in real_reqs(case)]
     if len(set(map(str, ids))) < len(ids):
         f.add("ids:same-str-key-twice")
-    for name in ("warm", "api", "write_mode", "params", "close_raises", "notif_post", "pause", "boundary"):
+    for name in ("warm", "api", "write_mode", "params", "close_raises", "notif_post", "pause", "boundary", "stderr", "close_write_at",
+                 "close_read_at", "twin", "debug_log"):
         if case.get(name):
             f.add(name + (":" + str(case[name]) if name in ("api", "write_mode", "notif_post") else ""))
     f.add("tie:" + case.get("tie", "events"))
@@ -1161,4 +1200,116 @@ def repeat_cases(budget, rng):
         out.append(finish({"T": T, "tie": TIES[k % 3], "items": items, "cuts": sorted(rng.sample(range(1, nbytes), 3)), "t0": 1, "gap": 1,
                            "reqs": [mk_req(1, 3, {"mode": "ackev", "d": 2, "ed": 6}, id=t, answer={"kind": "result", "payload": {t: t}}),
                                     mk_req(2, 5, {"mode": "200"})]}))
+    return out
+
+
+# ------------------------------------------------------------------ hardening sweep 3 (HARDEN3.md)
+def srvreq_with_id(v, i=0, typed=True):
+    """a SERVER request (it has a method) numbered like a client request: both peers number from 1"""
+    return {"k": "msg", "m": {"jsonrpc": "2.0", "id": v, "method": ("roots/list", "ping", "sampling/createMessage")[i % 3]}, "typed": typed}
+
+
+def size_cases(budget, rng):
+    """I. one event far above every buffer (64 KiB reads, 100 slots): 70 KB / 300 KB / 1 MB, arriving
+    in chunks of <= 16 KiB and <= 64 KiB, as a server message and as the answer of a request, with
+    small messages before and after; the 1000th message of a session."""
+    from . import sse_h
+    out = []
+    T = 256
+    k = 0
+    sizes = (70_000, 300_000) if budget == "quick" else (70_000, 300_000, 1_000_000)
+    for n in sizes:
+        for step in (16384, 65536):
+            k += 1
+            # as a server message
+            items = [EP, msg_notif(1), {"k": "bigmsg", "n": n, "i": k, "typed": bool(k % 2), "crlf": bool(k % 3 == 0)}, msg_notif(2), msg_srvreq(3)]
+            c = {"T": T, "tie": TIES[k % 3], "items": items, "t0": 1, "gap": k % 2, "reqs": [probe_req()]}
+            nbytes = len(stream_bytes(c))
+            c["cuts"] = list(range(step - 7, nbytes, step))
+            if n > 100_000:
+                c["boundary"] = True   # too large for the model driver's line protocol: oracle only
+            out.append(finish(c))
+            # as the answer of a request: on the event stream (both orders) and in the POST reply
+            for spec in ({"mode": "ackev", "d": 2, "ed": 6}, {"mode": "evack", "d": 40, "ed": 3}, {"mode": "200", "d": 3}):
+                k += 1
+                r = mk_req(1, 3, spec, id=[7, "r1"][k % 2], answer={"kind": "result", "big": n})
+                if "ed" in spec:
+                    evlen = len(sse_h.sse_event_bytes(sse_h.answer_msg(r, "ev")))
+                    r.update(cuts=list(range(step - 11, evlen, step)), gap=0)
+                c = {"T": T, "tie": TIES[k % 3], "items": [EP, msg_notif(k)], "t0": 1, "gap": 0,
+                     "reqs": [r, mk_req(2, 50, {"mode": "200"}), mk_req(3, 51, {"mode": "ackev", "d": 2, "ed": 5})]}
+                if n > 100_000:
+                    c["boundary"] = True
+                out.append(finish(c))
+    # the 1000th message of a session (the consumer reads along)
+    out.append(finish({"T": T, "tie": "io", "items": [EP, {"k": "burst", "n": 1100, "start": 0}, msg_srvreq(1)], "cuts": "items", "t0": 1, "gap": 0,
+                       "reqs": [mk_req(1, 3, {"mode": "ackev", "d": 2, "ed": 4})]}))
+    return out
+
+
+def collision_cases(budget, rng):
+    """M/K. both peers number their requests from 1: after a client request has been answered (in
+    every mode), a SERVER request / notification with the same id is an ordinary server message and
+    must be delivered, once; so must a response-shaped message for an id that was never asked."""
+    out = []
+    T = 64
+    k = 0
+    modes = ALL_MODES + [{"mode": "200", "ed": 2, "d": 7}, {"mode": "exc", "ed": 2, "d": 7}]
+    for spec in modes:
+        for cid, sid in ((1, 1), ("1", "1"), (1, "1"), ("1", 1), ("r1", "r1")):
+            k += 1
+            if budget == "quick" and k % 2 and cid != sid:
+                continue
+            items = [EP, msg_notif(k), srvreq_with_id(sid, k, True), srvreq_with_id(sid, k + 1, False), msg_notif(k + 1)]
+            c = {"T": T, "tie": TIES[k % 3], "items": items, "cuts": "items", "t0": 1, "gap": 150,
+                 "reqs": [mk_req(1, 3, dict(spec), id=cid, form=("dict", "model")[k % 2]), mk_req(2, 4, {"mode": "200"}, id=2)]}
+            out.append(finish(c))
+    # several answered requests, then server requests reusing all of their ids, interleaved with new client requests
+    for tie in TIES:
+        k += 1
+        reqs = [mk_req(j + 1, 3 + j, REQ_MODES[(k + j) % len(REQ_MODES)], id=j + 1) for j in range(4)]
+        reqs += [mk_req(9, 700, {"mode": "200"}, id=5), mk_req(10, 701, {"mode": "ackev", "d": 2, "ed": 5}, id=6)]
+        items = [EP] + [srvreq_with_id(j + 1, j, bool(j % 2)) for j in range(6)]
+        out.append(finish({"T": T, "tie": tie, "items": items, "cuts": "items", "t0": 1, "gap": 120, "reqs": reqs}))
+    return out
+
+
+def environment_cases(budget, rng):
+    """H. the process around the transport: a stderr that cannot be written (daemonised host) or is
+    ASCII-only while the code reports a swallowed failure; hours of (virtual) idle time between two
+    operations;  M. dict / str subclasses and Unicode twins as messages and ids;
+    N. `"error": null` next to a result and `"result": null` next to an error; a BOM."""
+    out = []
+    T = 64
+    k = 0
+    for err in ("broken", "ascii"):
+        for nf in ("exc", 500, None):
+            for first in ({"mode": "notif", "params": {"t": "é€"}}, {"mode": "garbage"}, {"mode": "exc", "exc_text": "é€ failed"}):
+                k += 1
+                reqs = [mk_req(1, 3, first), mk_req(2, 4, {"mode": "200"}), mk_req(3, 5, {"mode": "ackev", "d": 2, "ed": 5})]
+                c = {"T": T, "tie": TIES[k % 3], "stderr": err, "items": [EP, msg_unicode(k)], "t0": 1, "gap": 0, "reqs": reqs}
+                if nf is not None:
+                    c["notif_post"] = nf
+                out.append(finish(c))
+    HOURS = 3 * 3600 * 1024
+    for tie in TIES:
+        k += 1
+        out.append(finish({"T": T, "tie": tie, "items": [EP, msg_notif(1), msg_srvreq(2)], "cuts": "items", "t0": 1, "gap": HOURS,
+                           "reqs": [mk_req(1, 3, {"mode": "200"}), mk_req(2, HOURS // 2, {"mode": "ackev", "d": 2, "ed": 5}),
+                                    mk_req(3, 3 * HOURS, {"mode": "silence", "d": 2})]}))
+    for form in ("dictsub", "odict"):
+        for spec in REQ_MODES:
+            k += 1
+            out.append(finish({"T": T, "tie": TIES[k % 3], "items": [EP], "t0": 1, "gap": 0,
+                               "reqs": [mk_req(1, 3, spec, form=form), mk_req(2, 5, {"mode": "notif", "form": form})]}))
+    for ids in (["\u00e9", "e\u0301"], ["e\u0301", "\u00e9"], ["\ufeffr1", "r1"], ["R1", "r1"]):
+        k += 1
+        ids = [i.encode().decode("unicode_escape") for i in ids]
+        reqs = [mk_req(j + 1, 3 + j, [{"mode": "silence", "d": 2}, {"mode": "ackev", "d": 2, "ed": 5}][j % 2], id=i) for j, i in enumerate(ids)]
+        out.append(finish({"T": T, "tie": TIES[k % 3], "items": [EP], "t0": 1, "gap": 0, "reqs": reqs}))
+    for ans, extra in (({"kind": "result", "payload": {"ok": 1}}, {"error": None}), ({"kind": "error", "code": 5, "message": "m"}, {"result": None})):
+        for spec in ({"mode": "200"}, {"mode": "ackev", "d": 2, "ed": 5}, {"mode": "evack", "d": 7, "ed": 2}, {"mode": "status", "code": 400, "body": "rpc"}):
+            k += 1
+            out.append(finish({"T": T, "tie": TIES[k % 3], "items": [{"k": "raw", "text": "\ufeff".encode().decode("unicode_escape")}, EP], "t0": 1, "gap": 0,
+                               "reqs": [mk_req(1, 3, spec, answer=ans, extra=extra), mk_req(2, 5, {"mode": "200"})]}))
     return out
